@@ -102,7 +102,7 @@ def _mk_solver(kind: str, timeout_s: float) -> Any:
 PORTFOLIO = (("z3", 0.15), ("z3-arith2", 0.35), ("z3-qflia", 0.2), ("z3", 0.3))
 
 
-def discharge(vc: VC, base: list[Any], timeout_s: float, use_cvc5: bool = True) -> None:
+def discharge(vc: VC, base: list[Any], timeout_s: float, use_cvc5: bool = True, axioms: Any = None) -> None:
     """Refute base and pc and not cond  with a small solver portfolio (z3's new and old arithmetic cores, the
     qflia tactic, then cvc5).  `unknown` from every member leaves the VC undecided -- never a violation."""
     t0 = time.time()
@@ -110,6 +110,8 @@ def discharge(vc: VC, base: list[Any], timeout_s: float, use_cvc5: bool = True) 
         vc.status, vc.backend = "proved", "trivial"
         return
     goal = list(base) + list(vc.pc) + [z3.Not(vc.cond)]
+    if axioms is not None:
+        goal = goal + list(axioms(goal))
     vc.status = "unknown"
     last = None
     for kind, frac in PORTFOLIO:
@@ -231,6 +233,10 @@ def _verify_variant(c: Contract, tier: str, replay: bool, res: Result, choice: d
     for n, g in c.ghosts + c.args + c.kwargs:
         vals[n] = g.make(n, b)
     a = NS(vals)
+    eng.contract_ns = a
+    for x in list(vals.values()) + list(b.named.values()):
+        if hasattr(x, "register"):
+            x.register(eng)
     base: list[Any] = []
     for asm in b.assumptions:
         if asm is not True:
@@ -300,7 +306,7 @@ def _verify_variant(c: Contract, tier: str, replay: bool, res: Result, choice: d
         raise Unsupported(f"only {len(vcs)} obligations generated (< {c.min_obligations}): vacuity guard")
 
     for vc in vcs:
-        discharge(vc, base, timeout)
+        discharge(vc, base, timeout, axioms=getattr(eng, "axiom_instantiator", None))
         res.n_obligations += 1
         res.solver_time_s += vc.time_s
         res.by_backend[vc.backend] = res.by_backend.get(vc.backend, 0) + 1
@@ -444,6 +450,8 @@ def eval_cases_concrete(c: Contract, a: NS, kind: str, value: Any) -> tuple[bool
 
 def replay_concrete(c: Contract, vals: dict[str, Any], model: Any, choice: dict[str, int]) -> dict[str, Any]:
     ev = _mk_eval(model)
+    if any(hasattr(x, "register") for x in vals.values()):
+        return {"confirmed": False, "note": "inputs are abstract (symbolic calendar): no concrete replay; the failed obligation and solver model are the evidence"}
     try:
         cvals = {k: concretize(v, ev, live=True) for k, v in vals.items()}
         kind, value = call_real(c, cvals)
